@@ -102,7 +102,7 @@ fn main()
             let seed : u64 = arg(&args, "--seed", "1").parse().unwrap();
             let bin = arg(&args, "--bin", "/verif/harness/target/release/ruler_real");
             let base = arg(&args, "--dir", "/verif/work/realfs");
-            let lines = drv_realobs::real_histories(&bin, &base, n, seed);
+            let lines = drv_realobs::real_histories(&bin, &base, n, seed, &arg(&args, "--profile", "realfs"));
             run::write_lines(&out, &lines);
             println!("{}", serde_json::json!({"scenarios" : n, "events" : lines.len(), "counts" : run::counts(&lines)}));
         },
